@@ -9,6 +9,7 @@ Open Scope Z_scope.
 Record gcres := mkG { g_arch : arch; g_size : Z; g_align : Z; g_offsets : list Z }.
 Record case := mkCase {
   c_ty : ty;                                   (* the struct type *)
+  c_tools : bool;                              (* run through the commands too (otherwise (i) and (iii) only) *)
   c_gcsizes : list gcres;                      (* (i) gcsizes in-process; the head is ForArch(host) *)
   c_csize : Z; c_calign : Z; c_coffsets : list Z;          (* (iii) compiler: Sizeof, Alignof, Offsetof of the fields *)
   c_cleaves : list (list nat * Z * Z * Z);     (* (iii) compiler: path, absolute offset, Sizeof, Alignof of every leaf *)
@@ -128,6 +129,7 @@ Definition case_diffs (c : case) : list diff * list diff :=
                         then [] else [VGcsizes]
             | [] => [VGcsizes]
             end in
+  if negb (c_tools c) then (mg ++ ms, vg) else
   match c_lay c with
   | None => (mg ++ ms, vg ++ [VToolFailed])
   | Some lay =>
